@@ -77,6 +77,10 @@ PURE_METHODS = {"encode", "decode", "upper", "lower", "strip", "lstrip", "rstrip
                 "count", "translate", "partition", "rpartition", "ljust", "rjust", "zfill", "title", "casefold", "bit_length", "to_bytes"}
 
 
+#: aliases of tuples of builtin types that this code base defines once (passlib.utils.compat) and imports by name
+_TYPE_ALIASES = {"unicode_or_bytes": ast.Tuple(elts=[ast.Name(id="str", ctx=ast.Load()), ast.Name(id="bytes", ctx=ast.Load())], ctx=ast.Load())}
+
+
 def anchor_tree(rel):
     """parsed reference version of the file `rel` (e.g. 'passlib/context.py'), or None"""
     if rel not in _cache:
@@ -174,6 +178,11 @@ class _Expr(ast.NodeTransformer):
     def __init__(self, single_base=None):
         # single_base: (name of the enclosing class, name of its only base class or None)
         self.class_name, self.single_base = single_base if isinstance(single_base, tuple) else (None, single_base)
+
+    def visit_Name(self, node):
+        # a module-level alias for a tuple of builtin types (unicode_or_bytes = (str, bytes)) is its value
+        v = _TYPE_ALIASES.get(node.id) if isinstance(node.ctx, ast.Load) else None
+        return copy.deepcopy(v) if v is not None else node
 
     def visit_Call(self, node):
         self.generic_visit(node)
@@ -2431,6 +2440,74 @@ def _scope_items(body):
     return out
 
 
+def _readonly_uses(tree, name):
+    """every use of the module / class level name is a read that cannot tell a list from a tuple (index, iteration, membership, len)"""
+    parents = {}
+    for p_ in ast.walk(tree):
+        for ch in ast.iter_child_nodes(p_):
+            parents[id(ch)] = p_
+    for n in ast.walk(tree):
+        is_name = isinstance(n, ast.Name) and n.id == name
+        is_attr = isinstance(n, ast.Attribute) and n.attr == name and isinstance(n.value, ast.Name) and n.value.id in ("self", "cls")
+        if not (is_name or is_attr):
+            continue
+        par = parents.get(id(n))
+        if isinstance(n.ctx, ast.Store):
+            continue
+        if isinstance(par, ast.Subscript) and par.value is n and isinstance(par.ctx, ast.Load):
+            continue
+        if isinstance(par, (ast.For, ast.comprehension)) and par.iter is n:
+            continue
+        if isinstance(par, ast.Compare) and n in par.comparators and all(isinstance(o, (ast.In, ast.NotIn)) for o in par.ops):
+            continue
+        if isinstance(par, ast.Call) and isinstance(par.func, ast.Name) and par.func.id in ("len", "sorted", "tuple", "list", "set", "frozenset", "enumerate", "zip", "iter") and n in par.args:
+            continue
+        return False
+    return True
+
+
+def _module_consts(tree):
+    """private module-level names bound once to a constant or a tuple of names of builtin types"""
+    out = {}
+    for st in tree.body:
+        if isinstance(st, ast.Assign) and len(st.targets) == 1 and isinstance(st.targets[0], ast.Name):
+            v = st.value
+            if isinstance(v, ast.Constant) or (isinstance(v, ast.Tuple) and all(isinstance(e, ast.Name) and e.id in ("str", "bytes", "int", "float") for e in v.elts)):
+                nm = st.targets[0].id
+                out[nm] = None if nm in out else v
+    return {k: v for k, v in out.items() if v is not None}
+
+
+def _fold_simple(e, consts):
+    """tuple(str(NAME)) / NAME  with NAME a module constant  ->  the literal"""
+    if isinstance(e, ast.Name) and e.id in consts:
+        return consts[e.id]
+    if isinstance(e, ast.Call) and isinstance(e.func, ast.Name) and e.func.id in ("tuple", "list", "str") and len(e.args) == 1 and not e.keywords:
+        a = _fold_simple(e.args[0], consts)
+        if isinstance(a, ast.Constant) and isinstance(a.value, str):
+            if e.func.id == "str":
+                return a
+            elts = [ast.Constant(c) for c in a.value]
+            return ast.Tuple(elts=elts, ctx=ast.Load()) if e.func.id == "tuple" else ast.List(elts=elts, ctx=ast.Load())
+    return e
+
+
+def _assign_equiv(st, old, tree, ref):
+    """two spellings of one module / class level constant: a list vs a tuple that is only ever read; an expression over module constants vs its value"""
+    if not (isinstance(st, (ast.Assign, ast.AnnAssign)) and isinstance(old, (ast.Assign, ast.AnnAssign))) or st.value is None or old.value is None:
+        return False
+    tg = st.targets[0] if isinstance(st, ast.Assign) else st.target
+    if not isinstance(tg, ast.Name):
+        return False
+    a = _fold_simple(st.value, _module_consts(tree))
+    b = _fold_simple(old.value, _module_consts(ref))
+    if _dump(normal_ast(ast.Expr(value=a))) == _dump(normal_ast(ast.Expr(value=b))):
+        return True
+    if isinstance(a, (ast.List, ast.Tuple)) and isinstance(b, (ast.List, ast.Tuple)) and [_dump(x) for x in a.elts] == [_dump(x) for x in b.elts]:
+        return tg.id.startswith("_") and _readonly_uses(tree, tg.id) and _readonly_uses(ref, tg.id)
+    return False
+
+
 def substitute(tree, ref, stats=None):
     """replace every item of `tree` that is equivalent (equal normal forms) to its counterpart in `ref` by a copy of the counterpart.
     Returns (number of items that differ textually, number proven equivalent, [labels of the unproven ones])"""
@@ -2473,6 +2550,8 @@ def substitute(tree, ref, stats=None):
                     same = normal_form(st, hn, in_class, single_base) == normal_form(old, ho, in_class, single_base)
                 except RecursionError:
                     same = False
+                if not same and k[0] == "assign":
+                    same = _assign_equiv(st, old, tree, ref)
                 if same:
                     proven += 1
                     rep = copy.deepcopy(old)
